@@ -784,7 +784,9 @@ func (g *Gen) unreachableFresh(h *Heap, pt types.Type, r string, guard string) {
 			continue
 		}
 		arr := h.Get(fv, srt)
-		g.vc.AssumeAt(guard, fmt.Sprintf("(forall ((fx Int)) (! (not (= (select %s fx) %s)) :pattern ((select %s fx))))", arr, r, arr), "a fresh object is not referenced by any "+fv)
+		// only objects that exist now: heap variables of const fields are not versioned and also describe objects
+		// that will be created later (which may well point to this one)
+		g.vc.AssumeAt(guard, fmt.Sprintf("(forall ((fx Int)) (! (=> (< (root fx) %s) (not (= (select %s fx) %s))) :pattern ((select %s fx))))", g.model.allocNow(h), arr, r, arr), "a fresh object is not referenced by any existing "+fv)
 	}
 }
 
